@@ -40,4 +40,6 @@ pub mod c15;
 #[cfg(kani)]
 pub mod c14;
 #[cfg(kani)]
+pub mod c13;
+#[cfg(kani)]
 mod setup;
